@@ -104,6 +104,8 @@ def check(ctx):
     got = verdict(resolved=False, kind='Array')
     r2.check(got == [(False, True)], 'resolution checked first', rel, tp.lineno, 'an unresolved array type is judged %s' % got)
 
+    included_flags_rule(ctx, r2)
+
     # ------------------------------------------------------------------ R3 coverage of type-carrying members, propagation rounds
     r3 = ctx.rule('R3', 'every type-carrying member kind has a demoting site in a registered pass; propagation rounds', floor=10)
     val = py.func(IP, 'IntrospectablePass.validate')
@@ -199,6 +201,11 @@ def check(ctx):
     TT = gsa.summarise(ctx, 'girwriter', 'GIRWriter._type_to_name', inline_only=())
     rs = [e for e in TT.effects if e.kind == 'raise' and gsa.impossible(TT, e, [(r'^%s\.resolved$' % re.escape(TT.P(1)), True)]) and gsa.allowed(TT, e, [(r'^%s\.resolved$' % re.escape(TT.P(1)), False)])]
     r4.check(bool(rs), 'unresolved type names cannot be written', 'giscanner/girwriter.py', TT.func.lineno, '_type_to_name no longer raises for an unresolved type')
+    from . import c07
+    okrel, rels = c07.relative_name_ok(ctx)
+    r4.check(okrel, 'type references are written relative to exactly "<Namespace>."', 'giscanner/girwriter.py', TT.func.lineno,
+             '_type_to_name does not strip exactly the prefix "<namespace name>.": a reference to a type of an included namespace whose name starts with this namespace\'s name '
+             '(Gdk -> GdkPixbuf.Pixbuf) is written as a dangling local name', detail=rels)
     for fn in ('Callable.get_parameter_index', 'Compound.get_field_index'):
         g = py.func('ast', fn)
         r4.check(any(isinstance(n, ast.Raise) for n in ast.walk(g)), '%s raises on a dangling name' % fn, 'giscanner/ast.py', g.lineno, '%s does not raise' % fn)
@@ -210,6 +217,18 @@ def check(ctx):
     inv = gsa.find(P2, 'store', r'^\w+\.invoker$', r'^%s\.name$' % re.escape(P2.P(1)))
     r4.check(any(any(l.endswith('.virtual_methods') for l in e.loops) for e in inv), 'invoker recorded on a vfunc of the method\'s own parent', mt.rel, P2.func.lineno,
              'invoker stores: %s' % inv)
+
+
+def included_flags_rule(ctx, r2):
+    """dependency GIRs are read with types_only=True: skip / introspectable of their definitions must still be read"""
+    GA = gsa.summarise(ctx, 'girparser', 'GIRParser._parse_generic_attribs', inline_only=())
+    ob = re.escape(GA.P(2))
+    for attr in ('skip', 'introspectable'):
+        st = gsa.find(GA, 'store', r'^%s\.%s$' % (ob, attr))
+        r2.check(bool(st) and all(gsa.can_hold(e.cond, {'self._types_only': True}) for e in st if not re.search(r'^(False|True)$', e.value) or True), 'included definitions keep their %s flag' % attr,
+                 'giscanner/girparser.py', st[0].line if st else GA.func.lineno,
+                 'GIRParser reads %s only when not types_only: every definition of an included namespace then counts as introspectable, and users of a non-introspectable '
+                 'included type stay introspectable' % attr)
 
 
 def _ancestors(n):
